@@ -1008,6 +1008,9 @@ def rule_align(rep):
 # ------------------------------------------------------------------------------------------------ R-NARROW
 NARROW_PAT = (r'^(NTT_Goldilocks::|BR\(|PoseidonGoldilocks::(merkletree|linear_hash)|MerklehashGoldilocks::|Goldilocks::(parcpy|parSetZero)\(|'
               r'Goldilocks::(copy|add|sub|mul)_(avx512|avx|batch)\(|Goldilocks3::\w+_(avx512|avx|batch)\()')
+# the one routine whose 32-bit masks on a 64-bit value are its purpose: BR reverses the low 32 bits of a row index (domains have at most
+# 2^32 rows: the root table has 33 entries)
+MASK_EXEMPT = re.compile(r'^BR\(')
 ADDRESS_SINKS = re.compile(r'^(llvm\.mem(cpy|set|move)\.|malloc$|calloc$|_Znam$|_Znwm$|aligned_alloc$|llvm\.x86\.avx(2|512)\.(mask\.)?(gather|scatter))')
 
 
@@ -1128,7 +1131,7 @@ def rule_fpround_ntt(rep):
     rule_fpround(rep, r'^(NTT_Goldilocks::|BR\()')
 
 
-def rule_narrow(rep, configs=('avx2', 'avx512')):
+def rule_narrow(rep, configs=('avx2', 'avx512'), family=None):
     """R-NARROW (all shapes): a shape-derived integer that is narrowed below 64 bits - an explicit truncation, or a loop-carried
     counter narrower than 32 bits - must not reach an address computation, a copy length or an allocation size inside the
     routine.  (Arguments of ordinary calls and shift amounts are log-scale or schedule quantities on the pinned tree and are
@@ -1137,7 +1140,7 @@ def rule_narrow(rep, configs=('avx2', 'avx512')):
     nfun = 0
     for cfg in configs:
         mod = front.module(cfg, omp=True, sroa=True)
-        pat = re.compile(NARROW_PAT)
+        pat = re.compile(family or NARROW_PAT)
         files = set()
         names = []
         for n in mod.funcs:
@@ -1154,7 +1157,25 @@ def rule_narrow(rep, configs=('avx2', 'avx512')):
                         names.append(n)
                 except Exception:
                     pass
-        for name in names:
+        # file-local helpers the routines call (a slice-size helper ...): in them a narrowed value that is RETURNED is handed to a
+        # routine that turns it into addresses and lengths
+        helpers = set()
+        for n in list(names):
+            try:
+                fn_ = mod.fn(n)
+            except Exception:
+                continue
+            for lab_, ins_ in fn_.instrs():
+                c_ = callee_name(ins_)
+                if c_ and c_ in mod.funcs and c_ not in names and c_ not in helpers:
+                    try:
+                        f_ = mod.fn_loc(c_)[0]
+                    except Exception:
+                        f_ = None
+                    d_ = mod.dem.get(c_, c_)
+                    if f_ in files and '::' not in d_.split('(')[0] and mod.fn(c_).ret == ('i', 64):
+                        helpers.add(c_)
+        for name in names + sorted(helpers):
             try:
                 fi = info(mod, name)
             except Exception:
@@ -1183,6 +1204,12 @@ def rule_narrow(rep, configs=('avx2', 'avx512')):
                                 small = True
                         if not small:
                             seeds.append((ins, 'a %d-bit value truncated to %d bits' % (ins.x[1], ins.ty[1])))
+                    if (ins.op == 'and' and ins.ty == ('i', 64) and not MASK_EXEMPT.search(mod.dem.get(name, name))
+                            and any(a[0] == 'i' and isinstance(a[1], int) and (1 << 31) <= a[1] < (1 << 32) and (a[1] | (a[1] - 1)) == 0xFFFFFFFF and a[1] != 0xFFFFFFFF
+                                    for a in ins.a)):
+                        # x & 0xFFFFFFC0 on a 64-bit value: an alignment mask computed in 32 bits (`~(LINE - 1)` with an unsigned int
+                        # LINE) is zero-extended and clears bits 32..63 as well - a narrowing without a trunc
+                        seeds.append((ins, 'a 64-bit value masked with the 32-bit alignment mask 0x%x (bits 32..63 are cleared too)' % [a[1] for a in ins.a if a[0] == 'i'][0]))
                     if ins.op == 'phi' and ins.ty in (('i', 8), ('i', 16)) and b in _loop_headers(fi):
                         seeds.append((ins, 'a %d-bit loop-carried counter' % ins.ty[1]))
             for ins, what in seeds:
@@ -1208,6 +1235,9 @@ def rule_narrow(rep, configs=('avx2', 'avx512')):
                             if any(a == ('r', r_) for a in u.a[1:]) and ub is None:
                                 hit = (u, 'an address computation')
                                 break
+                        elif u.op == 'ret' and name in helpers and ub is None:
+                            hit = (u, 'the value this helper returns to a routine that computes addresses and lengths from it')
+                            break
                         elif u.op == 'call':
                             c = callee_name(u)
                             if c and ADDRESS_SINKS.match(c) and ub is None:
@@ -1250,7 +1280,7 @@ def rule_narrow(rep, configs=('avx2', 'avx512')):
                 else:
                     rep.ok(tag, 'R-NARROW', site, '%s does not reach an address, a copy length or an allocation size in this routine' % what)
     rep.ok('narrow:census', 'R-NARROW', 'src', '%d narrowing sites in %d shape-driven routines inspected' % (nsites, nfun))
-    rep.floor('shape-driven routines inspected for narrowing', nfun, 300)
+    rep.floor('shape-driven routines inspected for narrowing', nfun, 300 if family is None else 4)
     return nsites
 
 
